@@ -17,12 +17,12 @@ from ..symreal.core import S, symarr, vjp, new_session, evalarr
 from ..symreal.discharge import prove_equal
 from ..symreal.pool import run_catalogue
 
-ALPHABET = ["B0", "B1", "B2", "B3", "B4", "B5", "BW_last", "BW_prev", "BW_int", "BW_leaf_a", "BWR_last", "BWR_int", "RET_int", "Z_a", "Z_mod", "Z_opt"]
+ALPHABET = ["B0", "B1", "B2", "B3", "B4", "B5", "BW_last", "BW_prev", "BW_int", "BW_leaf_a", "BWR_last", "BWR_int", "RET_int", "RET_last", "Z_a", "Z_mod", "Z_opt"]
 DESCR = {
     "B0": "r = a * b", "B1": "m = a + b; r = m * a", "B2": "r = sum(a * a)", "B3": "r = <previous result> * b  (reuse of an earlier result)", "B4": "m = exp(b); r = m * c", "B5": "u = unbind(a); r = u[0] * b + u[1] + a   (multi-output op whose operand is also used directly)",
     "BW_last": "backward(last result, fresh g)", "BW_prev": "backward(previous result, fresh g)", "BW_int": "backward(last interior node m, fresh g)",
     "BW_leaf_a": "a.backward(fresh g)", "BWR_last": "with retain_grads(): backward(last result)", "BWR_int": "with retain_grads(): backward(last interior)",
-    "RET_int": "m.retain_grad()", "Z_a": "a.zero_()", "Z_mod": "Module.zero_grad()", "Z_opt": "Optimizer.zero_grad()",
+    "RET_int": "m.retain_grad()", "RET_last": "<last result>.retain_grad()  (a tensor that is later used as a root)", "Z_a": "a.zero_()", "Z_mod": "Module.zero_grad()", "Z_opt": "Optimizer.zero_grad()",
 }
 
 
@@ -71,7 +71,7 @@ class World:
         return t
 
     def valid(self, ev):
-        if ev in ("BW_last", "BWR_last"):
+        if ev in ("BW_last", "BWR_last", "RET_last"):
             return len(self.results) >= 1
         if ev == "BW_prev":
             return len(self.results) >= 2
@@ -80,7 +80,7 @@ class World:
         return True
 
     def target(self, ev):
-        if ev in ("BW_last", "BWR_last"):
+        if ev in ("BW_last", "BWR_last", "RET_last"):
             return self.results[-1]
         if ev == "BW_prev":
             return self.results[-2]
@@ -123,6 +123,8 @@ class World:
                 t.backward(g)
         elif ev == "RET_int":
             self.interiors[-1].retain_grad()
+        elif ev == "RET_last":
+            self.results[-1].retain_grad()
         elif ev == "Z_a":
             a.zero_()
         elif ev == "Z_mod":
@@ -346,7 +348,7 @@ class HistoryCase:
 def _api(ev):
     if ev.startswith("BW"):
         return "Tensor.backward"
-    return {"Z_a": "Tensor.zero_", "Z_mod": "Module.zero_grad", "Z_opt": "Optimizer.zero_grad", "RET_int": "Tensor.retain_grad"}.get(ev, "build")
+    return {"Z_a": "Tensor.zero_", "Z_mod": "Module.zero_grad", "Z_opt": "Optimizer.zero_grad", "RET_int": "Tensor.retain_grad", "RET_last": "Tensor.retain_grad"}.get(ev, "build")
 
 
 def _all_zero(arr):
@@ -371,6 +373,19 @@ def histories(tier, seed):
             if not any(e.startswith("BW") for e in h):
                 continue
             hs.append(h)
+    # a build, optionally a retain_grad on its result / interior, then every ordered pair of backward calls (quick); every history of length 4
+    # that starts with a build (thorough)
+    BWS = [e for e in ALPHABET if e.startswith("BW")]
+    for b in ("B0", "B1", "B2", "B3", "B4", "B5"):
+        if tier == "thorough":
+            for h in itertools.product(ALPHABET, repeat=3):
+                if any(e.startswith("BW") for e in h):
+                    hs.append((b,) + h)
+        else:
+            for r in ("RET_last", "RET_int"):
+                for x in BWS:
+                    for y in BWS:
+                        hs.append((b, r, x, y))
     extra = 600 if tier == "quick" else 6000
     for _ in range(extra):
         n = rng.choice([4, 4, 5, 6]) if tier == "thorough" else rng.choice([4, 4, 5])
